@@ -219,6 +219,31 @@ def run_shard(sh):
             code, jb = w.rest(method, url, json_body=body if method in ('POST', 'PUT', 'PATCH') else None)
             if code == 405:
                 res['counters']['method_not_allowed'] += 1
+    # ------------------------------------------------------------ a send racing the end of the session: the view has answered and
+    # handed its write to the reactor thread (callFromThread) when the peer's NOTIFICATION / a framing error is processed; the
+    # reactor makes the write afterwards, before the close completes.  What was answered as sent must still reach the wire
+    for i in range(max(6, sh['n'] // 200)):
+        w = World(local_as=65001, remote_as=65002, defer_close=True)
+        tr = w.establish()
+        if w.state_direct() != 'ESTABLISHED':
+            continue
+        path_, body_ = [('send/update', BODIES['send/update']), ('send/bin_update', {'binary_data': S.UPD_ROUTE.hex()})][i % 2]
+        code0, jb0 = w.rest('POST', path_, json_body=body_)          # control: the same request, no race
+        ctl = [d for _, d in tr.written][-1:] if isinstance(jb0, dict) and jb0.get('status') is True else []
+        n0 = len(tr.written)
+        w.lazy = True
+        code, jb = w.rest('POST', path_, json_body=body_)
+        how = ['cease', 'bad-marker', 'peer-update-error'][i % 3]
+        w.deliver(S.MSGS['NOTI_CEASE' if how == 'cease' else ('BADMARK' if how == 'bad-marker' else 'BADLEN')][0], tr)
+        w.lazy = False
+        w.settle()
+        res['evaluations'] += 1
+        res['counters']['sends_racing_a_close'] = res['counters'].get('sends_racing_a_close', 0) + 1
+        new = [d for _, d in tr.written[n0:]]
+        if isinstance(jb, dict) and jb.get('status') is True and ctl and ctl[0] not in new:
+            bad('send-not-faithful', ['race:write-queued-before-close', 'rule:' + path_],
+                '%s answered %s while the session was ending (%s); the frame the same request wrote a moment earlier (%s...) is not among the frames written afterwards: %s' % (
+                    path_, str(jb)[:60], how, ctl[0].hex()[:60], [d.hex()[:40] for d in new]), dict(race=how, path=path_))
     # ------------------------------------------------------------ successful sends
     for i in range(sh['n']):
         ibgp = rng.random() < 0.3
@@ -379,19 +404,24 @@ def run_shard(sh):
         if kind in ('update', 'bin', 'rr') and isinstance(jb, dict) and jb.get('status') is True and rng.random() < 0.25:
             # the session ends right after a successful send: the very next request (same instant) must be refused and written nowhere
             how = rng.choice(['peer-close', 'cease', 'bad-marker'])
+            # ... half of the time before the reactor has finished that instant (zero-delay calls, close completions still pending)
+            sub = rng.random() < 0.5
+            w.lazy = sub
             if how == 'peer-close':
                 w.peer_close(tr, clean=True)
             elif how == 'cease':
                 w.deliver(S.MSGS['NOTI_CEASE'][0], tr)
             else:
                 w.deliver(S.MSGS['BADMARK'][0], tr)
+            w.lazy = False
+            res['counters']['requests_inside_the_instant_of_a_close'] = res['counters'].get('requests_inside_the_instant_of_a_close', 0) + int(sub)
             nw = sum(len(t.written) for t in w.transports())
             for path_, body_ in (('send/update', BODIES['send/update']), ('send/route-refresh', {'afi': 1, 'safi': 1, 'res': 0}),
                                  ('send/bin_update', {'binary_data': S.UPD_ROUTE.hex()})):
                 code2, jb2 = w.rest('POST', path_, json_body=body_)
                 res['counters']['gate_refusals'] += 1
                 if (isinstance(jb2, dict) and jb2.get('status') is True) or sum(len(t.written) for t in w.transports()) != nw:
-                    bad('send-outside-established', ['rule:' + path_, 'state:just-dropped', 'how:' + how],
+                    bad('send-outside-established', ['rule:' + path_, 'state:just-dropped', 'how:' + how] + (['sub-instant'] if sub else []),
                         '%s right after the session ended (%s, state %s): answered %s %s, bytes written: %d' % (
                             path_, how, w.state_direct(), code2, str(jb2)[:80], sum(len(t.written) for t in w.transports()) - nw), dict(rep, then=path_, how=how))
                     break
